@@ -45,6 +45,7 @@ PngIccps ==
     { Iccp(79, 0, z, 2, FALSE) : z \in {"ok0", "ok9"} } \cup
     { Iccp(5, 0, "ok6", 2, TRUE) } \cup     \* small profile placed across a window boundary
     { Iccp(5, 0, z, 2, FALSE) : z \in {"trunc", "badhdr", "badsum"} } \cup
+    { Iccp(5, 0, z, p, TRUE) : z \in {"trunc", "badhdr", "badsum", "badblock"}, p \in {4, 6} } \cup   \* damage in large streams
     { Iccp(80, 0, "ok6", 2, FALSE), Iccp(5, 1, "ok6", 2, FALSE) }
 AncSlots == { <<>>, <<Anc("small")>>, <<Anc("big")>>, <<Anc("small"), Anc("big")>> }
 PngTails == { <<Idat, Iend>>, <<Iend>>, <<>> }
@@ -85,7 +86,8 @@ Other(kind) == [t |-> "OTHER", kind |-> kind]   \* APP1/COM/DQT/DHT/DRI/APP2 tha
 Sos == [t |-> "SOS"]
 
 JpegOtherKinds == { "app0", "app1", "app2", "app3", "app4", "app5", "app6", "app7", "app8", "app9",
-                    "app10", "app11", "app12", "app13", "app14", "app15", "com", "dqt", "dht", "dri" }
+                    "app10", "app11", "app12", "app13", "app14", "app15", "com", "dqt", "dht", "dri",
+                    "app2short", "app2empty", "app2almost" }
 JpegSofs == { Sof(0, 8, 16, 15, 3), Sof(2, 8, 1, 65535, 1), Sof(0, 12, 65535, 256, 4),
               Sof(2, 8, 257, 258, 3) }
 JpegLetters == { IccSeg(s, t, p) : s \in 0..3, t \in 1..2, p \in 1..2 } \cup
